@@ -12,9 +12,9 @@ go build ./... || { echo "BUILD FAILS"; git checkout -q -- .; exit 2; }
 /verif/tools/runtests.sh $wt > /tmp/seed_suite.txt 2>&1; suite=$?
 cp $src/demo_test.go.txt $wt/$dest
 pkgdir=$(dirname $dest)
-(cd $wt && go test -vet=off -count=1 ./$pkgdir -run 'Demo|demo|Seed|C[0-9]' > /tmp/seed_demo_with.txt 2>&1); with=$?
+(cd $wt && go test $RACEFLAG -vet=off -count=1 ./$pkgdir -run 'Demo|demo|Seed|C[0-9]' > /tmp/seed_demo_with.txt 2>&1); with=$?
 git apply -R $src/patch.diff
-(cd $wt && go test -vet=off -count=1 ./$pkgdir -run 'Demo|demo|Seed|C[0-9]' > /tmp/seed_demo_without.txt 2>&1); without=$?
+(cd $wt && go test $RACEFLAG -vet=off -count=1 ./$pkgdir -run 'Demo|demo|Seed|C[0-9]' > /tmp/seed_demo_without.txt 2>&1); without=$?
 git checkout -q -- . ; git clean -fdq
 echo "suite_with_change=$suite ($(head -1 /tmp/seed_suite.txt)) demo_with_change=$with demo_without=$without"
 if [ $suite != 0 ] || [ $with = 0 ] || [ $without != 0 ]; then echo "NOT CONFIRMED"; tail -5 /tmp/seed_demo_with.txt; tail -5 /tmp/seed_demo_without.txt; exit 3; fi
